@@ -168,24 +168,24 @@ var poolNames = []string{
 	"t-empty", "t-seq", "t-raising", "fn", "co-dead", "self", "file-open", "file-closed",
 }
 
-const poolSetup = `
+// Lua snippets that build the pool values that cannot be made from Go.
+var poolLua = map[string]string{
+	"t-raising": `
 local raising = {}
 local function boom() error("mm", 0) end
 for _, e in ipairs{"__index", "__newindex", "__call", "__add", "__sub", "__mul", "__div", "__mod", "__pow", "__unm",
   "__idiv", "__band", "__bor", "__bxor", "__shl", "__shr", "__bnot", "__concat", "__len", "__eq", "__lt", "__le",
   "__close", "__tostring", "__pairs", "__name"} do raising[e] = boom end
-local traising = setmetatable({}, raising)
-local fn = function(...) return ... end
-local co = coroutine.create(function() end)
-coroutine.resume(co)
-local fo = io.open("f-open", "w+")
+return setmetatable({}, raising)`,
+	"fn":      `return function(...) return ... end`,
+	"co-dead": `local co = coroutine.create(function() end) coroutine.resume(co) return co`,
+	"file-open": `local fo = io.open("f-open", "w+")
 fo:write("line1\nline2\n12 0x10 zz\n")
 fo:seek("set")
-local fc = io.open("f-closed", "w")
-fc:close()
-local d = string.dump(function(a, b) local t = {a, "k", 2.5} return t[1] + #b end)
-return traising, fn, co, fo, fc, d
-`
+return fo`,
+	"file-closed": `local fc = io.open("f-closed", "w") fc:close() return fc`,
+	"dump":        `return string.dump(function(a, b) local t = {a, "k", 2.5} return t[1] + #b end)`,
+}
 
 func flipBit(s string) string {
 	b := []byte(s)
@@ -194,33 +194,144 @@ func flipBit(s string) string {
 	return string(b)
 }
 
-func buildPool(m *host.Machine, self rt.Value) ([]rt.Value, string) {
+func luaValue(m *host.Machine, name string) (rt.Value, string) {
 	r := m.R
-	clos, err := r.CompileAndLoadLuaChunk("pool", []byte(poolSetup), rt.TableValue(r.GlobalEnv()))
+	clos, err := r.CompileAndLoadLuaChunk("pool", []byte(poolLua[name]), rt.TableValue(r.GlobalEnv()))
 	if err != nil {
-		return nil, "pool setup does not compile: " + err.Error()
+		return rt.NilValue, "pool setup does not compile: " + err.Error()
 	}
-	term := rt.NewTerminationWith(nil, 6, false)
+	term := rt.NewTerminationWith(nil, 1, false)
 	if err := rt.Call(r.MainThread(), rt.FunctionValue(clos), nil, term); err != nil {
-		return nil, "pool setup failed: " + err.Error()
+		return rt.NilValue, "pool setup failed: " + err.Error()
 	}
-	dump, _ := term.Get(5).TryString()
-	if len(dump) < 20 {
-		return nil, "string.dump image too short"
+	return term.Get(0), ""
+}
+
+var dumpImage string // string.dump image, computed once per process
+
+// poolValue builds pool value number pi in machine m.
+func poolValue(m *host.Machine, pi int, self rt.Value) (rt.Value, string) {
+	switch name := poolNames[pi]; name {
+	case "nil":
+		return rt.NilValue, ""
+	case "true":
+		return rt.BoolValue(true), ""
+	case "i0":
+		return rt.IntValue(0), ""
+	case "i1":
+		return rt.IntValue(1), ""
+	case "i-1":
+		return rt.IntValue(-1), ""
+	case "maxint":
+		return rt.IntValue(math.MaxInt64), ""
+	case "minint":
+		return rt.IntValue(math.MinInt64), ""
+	case "f0.5":
+		return rt.FloatValue(0.5), ""
+	case "f2^53":
+		return rt.FloatValue(1 << 53), ""
+	case "inf":
+		return rt.FloatValue(math.Inf(1)), ""
+	case "nan":
+		return rt.FloatValue(math.NaN()), ""
+	case "s-empty":
+		return rt.StringValue(""), ""
+	case "s-a":
+		return rt.StringValue("a"), ""
+	case "s-pct":
+		return rt.StringValue("%"), ""
+	case "s-300":
+		return rt.StringValue(strings.Repeat("x", 300)), ""
+	case "s-num":
+		return rt.StringValue("10"), ""
+	case "s-nul":
+		return rt.StringValue("a\x00b"), ""
+	case "dump-trunc", "dump-flip":
+		if dumpImage == "" {
+			v, e := luaValue(m, "dump")
+			if e != "" {
+				return v, e
+			}
+			dumpImage, _ = v.TryString()
+			if len(dumpImage) < 20 || !strings.Contains(dumpImage[:len(dumpImage)*3/5], "\x00") {
+				return v, "string.dump image unusable as pool value"
+			}
+		}
+		if name == "dump-trunc" {
+			return rt.StringValue(dumpImage[:len(dumpImage)*3/5]), ""
+		}
+		return rt.StringValue(flipBit(dumpImage)), ""
+	case "t-empty":
+		return rt.TableValue(rt.NewTable()), ""
+	case "t-seq":
+		seq := rt.NewTable()
+		for i := int64(1); i <= 3; i++ {
+			seq.Set(rt.IntValue(i), rt.IntValue(i*10))
+		}
+		return rt.TableValue(seq), ""
+	case "self":
+		return self, ""
+	default:
+		return luaValue(m, name)
 	}
-	seq := rt.NewTable()
-	for i := int64(1); i <= 3; i++ {
-		seq.Set(rt.IntValue(i), rt.IntValue(i*10))
+}
+
+// resolve finds the function named by a walk path in a fresh machine without
+// walking the whole graph again.
+func resolve(m *host.Machine, path string) rt.Value {
+	r := m.R
+	var cur rt.Value
+	rest := path
+	switch {
+	case strings.HasPrefix(rest, "<string-mt>"):
+		cur, rest = rt.TableValue(r.RawMetatable(rt.StringValue(""))), rest[len("<string-mt>"):]
+	case strings.HasPrefix(rest, "<values>"):
+		for _, g := range walkFunctions(m) {
+			if g.path == path {
+				return rt.FunctionValue(g.fn)
+			}
+		}
+		return rt.NilValue
+	default:
+		cur = rt.TableValue(r.GlobalEnv())
 	}
-	inf := rt.FloatValue(math.Inf(1))
-	nanv := math.NaN()
-	return []rt.Value{
-		rt.NilValue, rt.BoolValue(true), rt.IntValue(0), rt.IntValue(1), rt.IntValue(-1),
-		rt.IntValue(1<<63 - 1), rt.IntValue(-1 << 63), rt.FloatValue(0.5), rt.FloatValue(1 << 53), inf, rt.FloatValue(nanv),
-		rt.StringValue(""), rt.StringValue("a"), rt.StringValue("%"), rt.StringValue(strings.Repeat("x", 300)),
-		rt.StringValue("10"), rt.StringValue("a\x00b"), rt.StringValue(dump[:len(dump)*3/5]), rt.StringValue(flipBit(dump)),
-		rt.TableValue(rt.NewTable()), rt.TableValue(seq), term.Get(0), term.Get(1), term.Get(2), self, term.Get(3), term.Get(4),
-	}, ""
+	for rest != "" {
+		switch {
+		case strings.HasPrefix(rest, "<mt>"):
+			rest = rest[4:]
+			mt := r.RawMetatable(cur)
+			if mt == nil {
+				return rt.NilValue
+			}
+			cur = rt.TableValue(mt)
+		case rest[0] == '[':
+			k := strings.IndexByte(rest, ']')
+			n, _ := strconv.ParseInt(rest[1:k], 10, 64)
+			rest = rest[k+1:]
+			t, ok := cur.TryTable()
+			if !ok {
+				return rt.NilValue
+			}
+			cur = t.Get(rt.IntValue(n))
+		default:
+			if rest[0] == '.' {
+				rest = rest[1:]
+			}
+			k := strings.IndexAny(rest, ".<[")
+			name := rest
+			if k >= 0 {
+				name, rest = rest[:k], rest[k:]
+			} else {
+				rest = ""
+			}
+			t, ok := cur.TryTable()
+			if !ok {
+				return rt.NilValue
+			}
+			cur = t.Get(rt.StringValue(name))
+		}
+	}
+	return cur
 }
 
 // ---- sentinel directory
@@ -338,22 +449,16 @@ func libFamilies(tier string) []*core.Family {
 		resetSentinel()
 		m := host.NewMachine(false)
 		// the machine's own function value for this path (fresh runtime => fresh GoFunction objects)
-		var self rt.Value
-		for _, g := range walkFunctions(m) {
-			if g.path == f.path {
-				self = rt.FunctionValue(g.fn)
-			}
-		}
-		if self.IsNil() {
+		self := resolve(m, f.path)
+		if _, ok := self.TryCallable(); !ok {
 			return runRes{Status: "harness", Err: "function " + f.path + " not found in fresh runtime"}
-		}
-		pool, perr := buildPool(m, self)
-		if perr != "" {
-			return runRes{Status: "harness", Err: perr}
 		}
 		args := []rt.Value{self}
 		for k, pi := range tp {
-			v := pool[pi]
+			v, perr := poolValue(m, pi, self)
+			if perr != "" {
+				return runRes{Status: "harness", Err: perr}
+			}
 			if k == 0 && commandFns[f.path] {
 				if _, isS := v.TryString(); isS || v.Type() == rt.IntType || v.Type() == rt.FloatType {
 					v = rt.StringValue("true")
